@@ -6,7 +6,7 @@ AUDIT_IMPORTS = ["HypatiaProofs.Properties.C13"]
 THEOREMS = ["Hyp.Facet." + t for t in (
     "c13_refinement", "c13_membership", "c13_eq", "c13_any", "c13_all", "c13_docids", "c13_noteq", "c13_index_entry",
     "c13_unmatched_unknown", "c13_counts", "c13_counts_matches_spec", "c13_counts_omitted_absent", "c13_counts_unconfigured_absent")]
-CASES = {"quick": 6000, "thorough": 200000}
+CASES = {"quick": 12000, "thorough": 200000}
 BUDGET_S = {"quick": 40, "thorough": 700}
 RULE = ("facet sets of 1-7 names from an adversarial pool (a, ab, abc, b, bc, c, a:b, a:b:c, ab:c, bc:c, "
         "non-ASCII, empty segments; contains pairs whose concatenations coincide such as {ab,c}/{a,bc}); "
